@@ -1,10 +1,11 @@
 #!/usr/bin/env python3-vt
-"""C06 - determinism / independence of hash iteration order, for the order-sensitive kernel that is within reach.
+"""C06 - determinism / independence of hash iteration order, for the order-sensitive kernels that are within reach.
 
-Runs the harness of checks/c07.py (lexicographical_topological_sort under *every* iteration order of every HashMap / HashSet it
-walks, every DAG up to the bound, symbolic power levels and timestamps): the emitted order is proved to be a function of the
-graph and the keys, hence the same for every hasher seed, thread and call.  The native replays call the real function 16 times
-per instance (fresh RandomState seeds per map).  resolve() as a whole, argument permutations of state sets / auth chains and the
+Runs the harnesses of checks/c07.py under *every* iteration order of every HashMap / HashSet walked (one symbolic order index per
+iteration): lexicographical_topological_sort (every DAG up to the bound, symbolic power levels and timestamps: the emitted order
+is a function of the graph and the keys), separate (the unconflicted / conflicted split of 1-3 state sets, compared as maps) and
+get_auth_chain_diff (1-3 chains, compared as a set) - hence the same result for every hasher seed, thread and call.  The native
+replays call the real functions 16 times per instance (fresh RandomState seeds per map).  resolve() as a whole, argument permutations of state sets / auth chains and the
 creator cache are outside the claim (see DESIGN.md)."""
 import os, sys
 sys.path.insert(0, os.path.dirname(os.path.abspath(__file__)))
